@@ -1,0 +1,26 @@
+// Package verifhook holds the call-outs used by the external verification
+// harness. With the build tag "verif" off (the default) every function here is
+// an empty inlinable stub, so the engine's behaviour and performance are
+// unchanged; with the tag on the harness can install callbacks.
+package verifhook
+
+// IOOp names a file operation issued by the fio back-ends.
+type IOOp uint8
+
+const (
+	IOOpen IOOp = iota + 1
+	IOWrite
+	IOSync
+	IOTruncate
+	IOClose
+)
+
+// FSOp names a directory-level operation issued by merge and merge adoption.
+type FSOp uint8
+
+const (
+	FSMkdirAll FSOp = iota + 1
+	FSRemove
+	FSRename
+	FSRemoveAll
+)
